@@ -19,7 +19,9 @@ EXPLANATION = (
     "transposed once to (time, n); shorter stimuli are extended with zeros and only for key 'i' (clamps "
     "raise), longer inputs are sliced to the same bound; the two step-current builders agree on window "
     "and length. R-C08-recs: recs = concat([initial, recordings[:n]]).T in record() order. "
-    "R-C08-sibling: stimulate/clamp and data_stimulate/data_clamp share one batching normal form."
+    "R-C08-sibling: stimulate/clamp and data_stimulate/data_clamp share one batching normal form. "
+    "R-C08-keyclass (shared with C11/C19): recordings and clamps are classified as edge or node entries "
+    "with the base module's list of synaptic state names, not a view's filtered list."
 )
 ASSUMPTIONS = ["pandas concat/duplicated keep record() order", "key classes: node keys vs synapse keys (the code's own membership tests)"]
 
